@@ -303,5 +303,6 @@ func init() {
 		Assume: []string{"programs contain no Complete() (what should win is unspecified)", "a nil return when cancellation landed in the final quiescent cycle is accepted", "any prefix of the running rule's action list is accepted after cancellation inside it"},
 		Cases:  tierN(300, 8000),
 		Run:    runC15Case,
+		Finish: raceFinish,
 	})
 }
